@@ -390,6 +390,7 @@ inductive StepK where
   | V | E | out | in_ | both | outE | inE | bothE | as_ | select | limit (k : Nat) | skip (k : Nat)
   | range (a b : Nat) | count | distinct | aggcount | aggterm | agghist (i : Nat) | agg2
   | aggpct   -- percentile aggregation on x, one percent: one result row whatever the values are
+  | aggnone  -- an aggregation without a type: refused by the compiler (its channel would have no reader)
   deriving Repr, DecidableEq
 
 def stepOut (fam : Fam) (n : Nat) (x : Item) : List Item :=
@@ -439,6 +440,7 @@ def applyStep (fam : Fam) (n : Nat) (xs : List Item) : StepK → List Item
     else (List.range (histBuckets i (minI fam xs) (maxI fam xs))).map vtx
   | .agg2 => vtx 0 :: (List.range (termCount xs)).map vtx
   | .aggpct => [vtx 0]
+  | .aggnone => []
 
 inductive Outcome where
   | done (rows : Nat) | timeout | err | skip
@@ -497,6 +499,7 @@ def runModel (concurrentBoth histGuard : Bool) (fam : Fam) (n : Nat) (steps : Li
         if xs.isEmpty then .skip   -- the real code indexes an empty slice (a crash: property C06)
         else if i != 0 && histStalls fam i && !histGuard then .timeout
         else go rest (applyStep fam n xs s) (typeAfter cur s)
+      | .aggnone => .err   -- compile error, whatever the volume
       | .both => if !concurrentBoth && bothHangs fam n xs false cur then .timeout
                  else go rest (applyStep fam n xs s) (typeAfter cur s)
       | .bothE => if !concurrentBoth && bothHangs fam n xs true cur then .timeout
@@ -523,7 +526,7 @@ def pathSlack (steps : List StepK) : Option Nat :=
           match Gen.lookupOf proc with
           | some (q, be) => some (q + 1 + (Gen.backendOf be).foldl (· + ·) 0 + (Gen.backendOf be).length)
           | none => none
-        | .both | .bothE | .count | .aggcount | .aggterm | .agghist _ | .agg2 | .aggpct => none
+        | .both | .bothE | .count | .aggcount | .aggterm | .agghist _ | .agg2 | .aggpct | .aggnone => none
         | _ => some 1
       match stage with
       | none => none
